@@ -102,6 +102,34 @@ def gen(tier, rng):
                 cases.append(rz.resize_case(pt, sw, sh, dw, dh, alg="conv", flt=rz.pick(n, 209, ["Bilinear", "Lanczos3"]), alpha=False, box=box, Q=1,
                                             cpu=rz.pick(n, 210, rz.CPUS), src_c={"g": "rand", "seed": n}, src_lay=lay_with_guard(slay, 1),
                                             dst_lay=lay_with_guard(dlay, 1), api="typed" if typed else "dyn", threads=4, log=("dst",), chk=chk, g=g, sent=sent))
+    # fit_into_destination where only one dimension is cropped and the other already has the destination's extent: the
+    # computed box is integral up to the last bit of an f64 quotient (w / (w / dh) may be a hair below or above dh), i.e. right
+    # at the boundary between the copy path and a resampling pass -- every destination pixel must be assigned either way
+    fits = []
+    for w in range(1, 25):
+        for sh in range(2, 41):
+            for dh in range(1, sh):
+                if (sh - dh) % 2:
+                    continue
+                inexact = (w / (w / dh)) != dh or ((w / dh) * dh) != w
+                fits.append((w, sh, w, dh, inexact))
+                fits.append((sh, w, dh, w, inexact))
+    picked = [f for f in fits if f[4]] + [f for k, f in enumerate(fits) if not f[4] and k % 40 == 0]
+    if tier == "quick":
+        picked = [f for k, f in enumerate(picked) if rz.pick(k, 211, [1, 0, 0]) or k % 7 == 0]
+    for k, (sw, sh, dw, dh, _) in enumerate(picked):
+        n += 1
+        g += 1
+        pt = rz.pick(n, 212, rz.ALL_PT)
+        alg, flt, m = rz.pick(n, 213, algs)
+        dlay = rz.pick(n, 214, [{"k": "image"}, {"k": "crop_mut", "pad": [2, 1, 1, 2]}, {"k": "slice", "extra": 3}])
+        for rep, sent in enumerate((0x1717 + n, 0x9191 + 3 * n)):
+            c = rz.resize_case(pt, sw, sh, dw, dh, alg=alg, flt=flt, m=m, alpha=False, cpu=rz.pick(n, 215, rz.CPUS), src_c={"g": "rand", "seed": n},
+                               dst_lay=lay_with_guard(dlay, 1) if dlay["k"] != "image" else {"k": "image"}, log=("dst",),
+                               chk=["ret_ok", "outside", "srcsame"] + (["memo_exact"] if rep else []), g=g, sent=sent)
+            c["opt"].pop("crop", None)
+            c["opt"]["fit"] = None if n % 3 else [{"n": 1, "q": 2}, {"n": rz.pick(n, 216, [0, 1, 2]), "q": 2}]
+            cases.append(c)
     # thorough: seeded random calls through random container pairs
     if tier != "quick":
         for i in range(30000):
